@@ -215,3 +215,48 @@ extern "C" int interrupts()
   vf_reach("end");
   return 0;
 }
+
+// ------------------------------------------------------------------------------------------------ timers created from onClosed
+// The reconnect idiom: the peer goes away, the read fails, onClosed removes the client and starts a timer. That timer is a
+// timer like any other: activated once per interval, i.e. not a whole interval late.
+struct LateTimerCB : public Server::Timer::ICallback
+{
+  int64 due, interval; unsigned count;
+  virtual void onActivated()
+  {
+    int64 now = Time::ticks();
+    vf_assert(now >= due, "a timer is never activated before it is due");
+    vf_assert(now - due < interval, "a timer is activated once per interval (a timer created inside onClosed is not late)");
+    due += interval; ++count;
+    g_p->interrupt();
+  }
+};
+static LateTimerCB g_late;
+struct ReconnectCB : public Server::Client::ICallback
+{
+  Server::Client* self; unsigned closed; unsigned viaTimer;
+  virtual void onRead() { byte b[4]; usize n = 0; self->read(b, 4, n); }
+  virtual void onWrite() {}
+  virtual void onClosed()
+  {
+    ++closed;
+    g_p->remove(*(ClientImpl*)self);
+    g_late.interval = 1 + vf_pick(3); g_late.due = Time::ticks() + g_late.interval; g_late.count = 0;
+    vf_assert(g_p->time(g_late.interval, g_late) != 0, "time()");
+  }
+};
+extern "C" int closed_timer()
+{
+  {
+    Server::Private p; g_p = &p;
+    Socket peer; ReconnectCB cb; cb.closed = 0;
+    cb.self = p.pair(cb, peer);
+    vf_assert(cb.self != 0, "pair");
+    peer.close();
+    p.run();                                       // returns through the timer's interrupt()
+    vf_assert(cb.closed == 1, "a failed read is followed by onClosed");
+    vf_assert(g_late.count == 1, "the timer created from onClosed was activated");
+  }
+  vf_reach("end");
+  return 0;
+}
